@@ -132,6 +132,7 @@ type execResult struct {
 	outside   bool
 	primedRun bool    // the history was also executed in the directory-primed variant
 	tableRuns int     // number of additional descriptor-table variants executed
+	failed    []bool  // per call of the history: the implementation's call failed
 	v         variant // the variant the mismatch comes from (zero value: plain execution)
 }
 
@@ -161,17 +162,22 @@ func (v variant) plain() bool { return !v.Primed && len(v.Touch) == 0 && len(v.P
 // (fd_close, fd_renumber, path_open succeeding), the executions in which every open descriptor is
 // touched just before that call — the affected numbers last (in every order) or first — and the
 // affected numbers are probed first afterwards (in every order).
-func tableVariants(hist []Op) []variant {
+func tableVariants(hist []Op, failed []bool) []variant {
 	last := &hist[len(hist)-1]
 	if last.K != "fd_close" && last.K != "fd_renumber" && last.K != "path_open" {
 		return nil
 	}
 	m := newModel()
+	if len(failed) != len(hist) {
+		return nil
+	}
 	for i := range hist[:len(hist)-1] {
+		m.hintFailed = failed[i]
 		if e := m.apply(&hist[i]); e.Outside != "" {
 			return nil
 		}
 	}
+	m.hintFailed = failed[len(hist)-1]
 	var open []int32
 	for fd := int32(0); fd < 16; fd++ {
 		if m.fds[fd] != nil {
@@ -272,6 +278,7 @@ func histString(h []Op) string {
 func (w *worker) execute(hist []Op, verbose bool, v variant) (r execResult) {
 	primed := v.Primed
 	r.v = v
+	driftSig := ""
 	dirBuf := uint32(512)
 	if v.DirBuf != 0 {
 		dirBuf = v.DirBuf
@@ -285,7 +292,7 @@ func (w *worker) execute(hist []Op, verbose bool, v variant) (r execResult) {
 		os.RemoveAll(dir)
 	}()
 	m := newModel()
-	book := &inoBook{m: m, ino: map[*inode]uint64{}}
+	book := newBook(m, dir)
 	say := func(f string, a ...any) {
 		if verbose {
 			fmt.Printf(f+"\n", a...)
@@ -297,8 +304,7 @@ func (w *worker) execute(hist []Op, verbose bool, v variant) (r execResult) {
 			for fd := int32(3); fd <= 7; fd++ {
 				if e := m.fds[fd]; e != nil && e.ino.dir {
 					po := Op{K: "fd_readdir", Fd: fd, Len: dirBuf}
-					exp := m.apply(&po)
-					res := x.do(&po)
+					exp, res := step(m, x, &po)
 					say("  prime:  %-44s -> errno=%d bufused=%d | model: %s", po.String(), res.Errno, res.N, expString(exp))
 					if f, d := compare(exp, res, book); f != "" {
 						r.mism = &mismatch{Sig: "prime:fd_readdir:" + f, Step: i,
@@ -311,8 +317,7 @@ func (w *worker) execute(hist []Op, verbose bool, v variant) (r execResult) {
 		if i == len(hist)-1 {
 			for _, fd := range v.Touch {
 				to := Op{K: "fd_tell", Fd: fd}
-				exp := m.apply(&to)
-				res := x.do(&to)
+				exp, res := step(m, x, &to)
 				say("  touch:  %-44s -> errno=%d n=%d | model: %s", to.String(), res.Errno, res.N, expString(exp))
 				if f, d := compare(exp, res, book); f != "" {
 					r.mism = &mismatch{Sig: "touch:fd_tell:" + f, Step: i,
@@ -321,9 +326,14 @@ func (w *worker) execute(hist []Op, verbose bool, v variant) (r execResult) {
 				}
 			}
 		}
-		exp := m.apply(o)
-		res := x.do(o)
+		exp, res := step(m, x, o)
 		say("  step %d: %-44s -> errno=%d n=%d trap=%q | model: %s", i, o.String(), res.Errno, res.N, res.Trap, expString(exp))
+		r.failed = append(r.failed, res.Errno != 0 || res.Trap != "")
+		if i == len(hist)-1 && m.driftedOK {
+			// the last call went through a directory descriptor whose recorded path no longer names its
+			// directory, and succeeded: any disagreement from here on means it acted on the path
+			driftSig = "path-call-through-moved-directory-descriptor:" + o.K + ":acted-on-the-old-path"
+		}
 		if exp.OutsideIfOK != "" && res.Errno == 0 && res.Trap == "" {
 			exp = Exp{Outside: exp.OutsideIfOK}
 		}
@@ -340,6 +350,12 @@ func (w *worker) execute(hist []Op, verbose bool, v variant) (r execResult) {
 		if f, d := compare(exp, res, book); f != "" {
 			r.mism = &mismatch{Sig: opSig(o) + ":" + f, Step: i,
 				What: fmt.Sprintf("after [%s] the call %s: %s", histString(hist[:i]), o.String(), d)}
+			if driftSig != "" {
+				r.mism.Sig = driftSig
+			}
+			if c := driftedListingClass(m, o, res, book); c != "" {
+				r.mism.Sig = c
+			}
 			return
 		}
 		if exp.Outside != "" {
@@ -372,8 +388,7 @@ func (w *worker) execute(hist []Op, verbose bool, v variant) (r execResult) {
 	{
 		for pi, o := range probes {
 			k := o.K
-			exp := m.apply(&o)
-			res := x.do(&o)
+			exp, res := step(m, x, &o)
 			if f, d := compare(exp, res, book); f != "" {
 				say("  probe %s -> errno=%d n=%d | model: %s", o.String(), res.Errno, res.N, expString(exp))
 				sig := last + ":post:" + k + ":" + f
@@ -388,6 +403,12 @@ func (w *worker) execute(hist []Op, verbose bool, v variant) (r execResult) {
 					// the descriptor that was renumbered onto itself (successfully) is now closed
 					sig = "fd_renumber:from==to:descriptor-closed"
 				}
+				if driftSig != "" {
+					sig = driftSig
+				}
+				if c := driftedListingClass(m, &o, res, book); c != "" {
+					sig = c
+				}
 				r.mism = &mismatch{Sig: sig, Step: len(hist),
 					What: fmt.Sprintf("after [%s]%s the probe %s: %s", histString(hist), variantString(v), o.String(), d)}
 				return
@@ -397,11 +418,51 @@ func (w *worker) execute(hist []Op, verbose bool, v variant) (r execResult) {
 	if got, want := hostTree(dir), m.TreeString(); got != want {
 		r.mism = &mismatch{Sig: last + ":post:host-tree", Step: len(hist),
 			What: fmt.Sprintf("after [%s] the host directory is {%s}, model: {%s}", histString(hist), got, want)}
+		if driftSig != "" {
+			r.mism.Sig = driftSig
+		}
 		return
 	}
 	say("  probes and host tree agree: {%s}", m.TreeString())
 	r.key = m.Key()
 	return
+}
+
+// driftedListingClass recognises ONE specific shape of a wrong fd_readdir result: the descriptor's
+// recorded path no longer names its directory, the call succeeded, and the listing shows nothing that
+// is foreign to the original directory by NAME ('.' still carries the original inode, every listed
+// name exists in the original directory) — but entries are missing or carry other inode numbers,
+// because the host lists by descriptor and then lstat()s every entry through the OLD PATH. A listing
+// with a name that only exists elsewhere, or another '.' inode, is NOT this class.
+func driftedListingClass(m *Model, o *Op, res Res, book *inoBook) string {
+	if o.K != "fd_readdir" || res.Errno != 0 || res.Trap != "" {
+		return ""
+	}
+	e := m.fds[o.Fd]
+	if e == nil || !e.ino.dir || m.inSync(e) {
+		return ""
+	}
+	ents, _ := parseDirents(res.Buf, uint32(res.N))
+	for i, d := range ents {
+		if d.headerOnly {
+			return ""
+		}
+		switch {
+		case i == 0:
+			if h, ok := book.ino[e.ino]; d.name != "." || (ok && h != d.ino) {
+				return ""
+			}
+		case i == 1:
+			if d.name != ".." {
+				return ""
+			}
+		default:
+			if e.ino.kids[d.name] == nil {
+				return ""
+			}
+		}
+	}
+	return "fd_readdir:moved-directory-descriptor:entries-dropped-or-restatted-through-the-old-path"
 }
 
 func variantString(v variant) string {
@@ -500,7 +561,7 @@ func fsBFS(run *fw.Run, alpha []Op, base variant, sigPrefix string, depth int, d
 						vs = append(vs, variant{Primed: true}.with(base))
 						r.primedRun = true
 					}
-					tv := tableVariants(hist)
+					tv := tableVariants(hist, r.failed)
 					r.tableRuns = len(tv)
 					for _, v := range append(vs, tv...) {
 						v = v.with(base)
@@ -595,6 +656,7 @@ func main() {
 	t0 := time.Now()
 	st := fsBFS(run, alphabet(), variant{}, "", depth, deadline, outcomes, samples)
 	nm := namesExplore(run, outcomes, samples)
+	dr := driftExplore(run, outcomes)
 	wd := wideExplore(run, outcomes)
 	t1 := time.Now()
 	rd := readdirExplore(run, outcomes, samples)
@@ -607,7 +669,7 @@ func main() {
 		depths = append(depths, l)
 	}
 	run.Finish(fw.Coverage{
-		Evaluations:     st.transitions + st.primed + st.tableRuns + nm.executions + wd.words + rd.sequences + rd.mutated,
+		Evaluations:     st.transitions + st.primed + st.tableRuns + nm.executions + dr.histories + wd.words + rd.sequences + rd.mutated,
 		DistinctNontriv: st.states - 1 + nm.states + wd.states + rd.sequences + rd.mutated,
 		States:          st.states, Transitions: st.transitions, TracesValidated: st.transitions,
 		Rule:    "fs: distinct canonical reference-model states (tree+contents, descriptor table with inode identity, offsets, append/write flags) other than the initial one, each reached by executing its shortest history on the real WASI implementation; readdir: distinct (directory, buf_len, cookie sequence) call sequences, each executed on a fresh directory descriptor; wide-table: distinct sets of open descriptor numbers reached from the N-descriptor tables; readdir-mutation: distinct (directory, buf_len, traversal prefix, mutation) cases",
@@ -619,7 +681,7 @@ func main() {
 			"readdir":    rd.bounds, "fs_host_filesystem": fastFS, "readdir_host_filesystem": tmpFS,
 		},
 		Extra: map[string]any{
-			"awkward_names_executions": nm.executions, "awkward_names_states": nm.states,
+			"descriptor_keeps_object_histories": dr.histories, "awkward_names_executions": nm.executions, "awkward_names_states": nm.states,
 			"wide_table_words": wd.words, "wide_table_states": wd.states,
 			"fs_transitions_also_executed_primed": st.primed, "fs_descriptor_table_variant_executions": st.tableRuns, "readdir_mutation_cases": rd.mutated,
 			"fs_transitions_outside_model": st.outside, "fs_transitions_with_mismatch": st.pruned,
